@@ -1104,3 +1104,302 @@ MUTANTS += [
                 drop(torrent_maps);
 """)]),
 ]
+
+# ---- round 3 of benign edits: behaviour-preserving refactors of anchor functions; every claimed check must stay silent
+ALL = ["C%02d" % i for i in range(1, 21)]
+HCN = HC + "connection.rs"
+MUTANTS += [
+ dict(id="BENIGN-mio-early-return-on-invalid-id", props=ALL, benign=True,
+      edits=[(MIO+"mod.rs", """            Request::Announce(request) => {
+                if self
+                    .validator
+                    .connection_id_valid(src, request.connection_id)
+                {
+                    if self
+                        .access_list_cache
+                        .load()
+                        .allows(access_list_mode, &request.info_hash.0)
+                    {
+                        let response = self.shared_state.torrent_maps.announce(
+                            &self.config,
+                            &self.statistics_sender,
+                            &mut self.rng,
+                            &request,
+                            src,
+                            self.peer_valid_until,
+                        );
+
+                        return Some(response);
+                    } else {
+                        return Some(Response::Error(ErrorResponse {
+                            transaction_id: request.transaction_id,
+                            message: "Info hash not allowed".into(),
+                        }));
+                    }
+                }
+            }""", """            Request::Announce(request) => {
+                if !self
+                    .validator
+                    .connection_id_valid(src, request.connection_id)
+                {
+                    return None;
+                }
+
+                let allowed = self
+                    .access_list_cache
+                    .load()
+                    .allows(access_list_mode, &request.info_hash.0);
+
+                if !allowed {
+                    return Some(Response::Error(ErrorResponse {
+                        transaction_id: request.transaction_id,
+                        message: "Info hash not allowed".into(),
+                    }));
+                }
+
+                let response = self.shared_state.torrent_maps.announce(
+                    &self.config,
+                    &self.statistics_sender,
+                    &mut self.rng,
+                    &request,
+                    src,
+                    self.peer_valid_until,
+                );
+
+                return Some(response);
+            }""")]),
+ dict(id="BENIGN-udp-export-tmp-path-local", props=ALL, benign=True,
+      edits=[(SWR, """        let mut opt_scrape_export_writer = if export_full_scrape {
+            match File::create(config.scrape_exports.tmp_path()) {""", """        let tmp_path = config.scrape_exports.tmp_path();
+        let mut opt_scrape_export_writer = if export_full_scrape {
+            match File::create(&tmp_path) {"""),
+             (SWR, """                if let Err(err) = ::std::fs::rename(
+                    config.scrape_exports.tmp_path(),
+                    &config.scrape_exports.path,
+                ) {""", """                if let Err(err) = ::std::fs::rename(&tmp_path, &config.scrape_exports.path) {""")]),
+ dict(id="BENIGN-udp-scrape-family-by-match", props=ALL, benign=True,
+      edits=[(SWR, """        if src.is_ipv4() {
+            self.ipv4.scrape(request)
+        } else {
+            self.ipv6.scrape(request)
+        }""", """        match src.get().ip() {
+            IpAddr::V4(_) => self.ipv4.scrape(request),
+            IpAddr::V6(_) => self.ipv6.scrape(request),
+        }""")]),
+ dict(id="BENIGN-udp-announce-method-min-and-locals", props=ALL, benign=True,
+      edits=[(SWR, """            ::std::cmp::min(
+                config.protocol.max_response_peers,
+                request.peers_wanted.0.get().try_into().unwrap(),
+            )""", """            let wanted: usize = request.peers_wanted.0.get().try_into().unwrap();
+
+            config.protocol.max_response_peers.min(wanted)""")]),
+ dict(id="BENIGN-udp-scrape-statistics-map-or-else", props=ALL, benign=True,
+      edits=[(SWR, """            let statistics = if let Some(peer_map) = torrent_map_shard.read().get(&info_hash) {
+                peer_map.read().scrape_statistics()
+            } else {
+                TorrentScrapeStatistics {
+                    seeders: NumberOfPeers::new(0),
+                    leechers: NumberOfPeers::new(0),
+                    completed: NumberOfDownloads::new(0),
+                }
+            };""", """            let statistics = match torrent_map_shard.read().get(&info_hash) {
+                Some(peer_map) => peer_map.read().scrape_statistics(),
+                None => TorrentScrapeStatistics {
+                    seeders: NumberOfPeers::new(0),
+                    leechers: NumberOfPeers::new(0),
+                    completed: NumberOfDownloads::new(0),
+                },
+            };""")]),
+ dict(id="BENIGN-http-write-response-hoisted-start", props=ALL, benign=True,
+      edits=[(HCN, """        {
+            let start = RESPONSE_HEADER_A.len();
+            let end = start + RESPONSE_HEADER_B.len();
+
+            self.response_buffer[start..end].copy_from_slice(RESPONSE_HEADER_B);
+        }
+
+        // Set content-len header value
+
+        {
+            let mut buf = ::itoa::Buffer::new();
+            let content_len_bytes = buf.format(content_len).as_bytes();
+
+            let start = RESPONSE_HEADER_A.len();
+            let end = start + content_len_bytes.len();
+
+            self.response_buffer[start..end].copy_from_slice(content_len_bytes);
+        }""", """        let digits_start = RESPONSE_HEADER_A.len();
+
+        self.response_buffer[digits_start..digits_start + RESPONSE_HEADER_B.len()]
+            .copy_from_slice(RESPONSE_HEADER_B);
+
+        // Set content-len header value
+
+        let mut buf = ::itoa::Buffer::new();
+        let content_len_bytes = buf.format(content_len).as_bytes();
+
+        self.response_buffer[digits_start..digits_start + content_len_bytes.len()]
+            .copy_from_slice(content_len_bytes);""")]),
+ dict(id="BENIGN-http-announce-index-before-channel", props=ALL, benign=True,
+      edits=[(HCN, """                    let (response_sender, response_receiver) = shared_channel::new_bounded(1);
+
+                    let request = ChannelRequest::Announce {
+                        request,
+                        peer_addr,
+                        response_sender,
+                    };
+
+                    let consumer_index = calculate_request_consumer_index(&self.config, info_hash);
+""", """                    let consumer_index = calculate_request_consumer_index(&self.config, info_hash);
+
+                    let (response_sender, response_receiver) = shared_channel::new_bounded(1);
+
+                    let request = ChannelRequest::Announce {
+                        request,
+                        peer_addr,
+                        response_sender,
+                    };
+""")]),
+ dict(id="BENIGN-http-keep-alive-loop-condition", props=ALL, benign=True,
+      edits=[(HCN, """            if !self.config.network.keep_alive {
+                break;
+            }
+        }
+
+        Ok(())""", """            let keep_alive = self.config.network.keep_alive;
+
+            if keep_alive {
+                continue;
+            }
+
+            return Ok(());
+        }""")]),
+ dict(id="BENIGN-ws-announce-early-return-when-forbidden", props=ALL, benign=True,
+      edits=[(WCN, """        let info_hash = request.info_hash;
+
+        if self
+            .access_list_cache
+            .load()
+            .allows(self.config.access_list.mode, &info_hash.0)
+        {
+            let mut announced_info_hashes""", """        let info_hash = request.info_hash;
+
+        let allowed = self
+            .access_list_cache
+            .load()
+            .allows(self.config.access_list.mode, &info_hash.0);
+
+        if allowed {
+            let mut announced_info_hashes""")]),
+ dict(id="BENIGN-ws-scrape-count-after-meta", props=ALL, benign=True,
+      edits=[(WCN, """        let pending_worker_out_messages = info_hashes_by_worker.len();
+
+        let pending_scrape_response = PendingScrapeResponse {
+            pending_worker_out_messages,
+            stats: Default::default(),
+        };
+""", """        let pending_scrape_response = PendingScrapeResponse {
+            pending_worker_out_messages: info_hashes_by_worker.len(),
+            stats: Default::default(),
+        };
+""")]),
+]
+
+# a reviewed panic-capable site that merely moves to another function of the same crate (rename) is not a new site (C12 move tolerance)
+MUTANTS += [
+ dict(id="BENIGN-C12-rename-function-with-reviewed-sites", props=["C12", "C06", "C18"], benign=True,
+      edits=[(US+"workers/socket/uring/buf_ring.rs", "        self.raw.stable_ptr_i(bid)", "        self.raw.stable_ptr_of(bid)"),
+             (US+"workers/socket/uring/buf_ring.rs", "    fn stable_ptr_i(&self, bid: Bid) -> *const u8 {", "    fn stable_ptr_of(&self, bid: Bid) -> *const u8 {"),
+             (US+"workers/socket/uring/buf_ring.rs", "        entry.set_addr(self.stable_ptr_i(bid) as _);", "        entry.set_addr(self.stable_ptr_of(bid) as _);")]),
+ dict(id="BENIGN-C12-safe-length-arithmetic-added", props=["C12", "C16"], benign=True,
+      edits=[(HCN, """        let mut info_hashes_by_worker: BTreeMap<usize, Vec<InfoHash>> = BTreeMap::new();
+
+                // Limit number""", """        let mut info_hashes_by_worker: BTreeMap<usize, Vec<InfoHash>> = BTreeMap::new();
+
+                ::log::trace!("scrape request with {} info hashes (+1)", info_hashes.len() + 1);
+
+                // Limit number""")]),
+]
+
+MUTANTS += [
+ dict(id="BENIGN-ws-ownership-demorgan", props=ALL, benign=True,
+      edits=[(WS+"storage.rs", """            if request_sender_meta.connection_id != previous_peer.connection_id
+                || request_sender_meta.out_message_consumer_id.0 != previous_peer.consumer_id.0
+            {
+                return;
+            }""", """            let same_connection = request_sender_meta.connection_id == previous_peer.connection_id
+                && request_sender_meta.out_message_consumer_id.0 == previous_peer.consumer_id.0;
+
+            if !same_connection {
+                return;
+            }""")]),
+ dict(id="BENIGN-http-clean-if-else-instead-of-early-return", props=ALL, benign=True,
+      edits=[(HST, """            if !access_list_cache
+                .load()
+                .allows(config.access_list.mode, &info_hash.0)
+            {
+                return false;
+            }
+
+            let num_peers = match torrent_data {
+                TorrentData::Small(t) => t.clean_and_get_num_peers(now),
+                TorrentData::Large(t) => t.clean_and_get_num_peers(now),
+            };
+
+            total_num_peers += num_peers as u64;
+
+            num_peers > 0
+        });""", """            let allowed = access_list_cache
+                .load()
+                .allows(config.access_list.mode, &info_hash.0);
+
+            if allowed {
+                let num_peers = match torrent_data {
+                    TorrentData::Small(t) => t.clean_and_get_num_peers(now),
+                    TorrentData::Large(t) => t.clean_and_get_num_peers(now),
+                };
+
+                total_num_peers += num_peers as u64;
+
+                num_peers > 0
+            } else {
+                false
+            }
+        });""")]),
+ dict(id="BENIGN-http-numwant-match-reordered", props=ALL, benign=True,
+      edits=[(HST, """        let max_num_peers_to_take = match request.numwant {
+            Some(0) | None => config.protocol.max_peers,
+            Some(numwant) => numwant.min(config.protocol.max_peers),
+        };""", """        let max_peers = config.protocol.max_peers;
+        let max_num_peers_to_take = match request.numwant {
+            None => max_peers,
+            Some(0) => max_peers,
+            Some(numwant) => ::std::cmp::min(numwant, max_peers),
+        };""")]),
+ dict(id="BENIGN-udp-validator-named-temps", props=ALL, benign=True,
+      edits=[(US+"workers/socket/validator.rs", """        if !constant_time_eq(hash, &self.hash(elapsed, source_addr.get().ip())) {
+            return false;
+        }""", """        let source_ip = source_addr.get().ip();
+        let expected_hash = self.hash(elapsed, source_ip);
+
+        if !constant_time_eq(hash, &expected_hash) {
+            return false;
+        }""")]),
+ dict(id="BENIGN-ws-announce-response-local-counts", props=ALL, benign=True,
+      edits=[(WS+"storage.rs", """        let response = OutMessage::AnnounceResponse(AnnounceResponse {
+            action: AnnounceAction::Announce,
+            info_hash: request.info_hash,
+            complete: torrent_data.num_seeders,
+            incomplete: torrent_data.num_leechers(),
+            announce_interval: config.protocol.peer_announce_interval,
+        });""", """        let complete = torrent_data.num_seeders;
+        let incomplete = torrent_data.num_leechers();
+
+        let response = OutMessage::AnnounceResponse(AnnounceResponse {
+            action: AnnounceAction::Announce,
+            info_hash: request.info_hash,
+            complete,
+            incomplete,
+            announce_interval: config.protocol.peer_announce_interval,
+        });""")]),
+]
